@@ -7,13 +7,21 @@
 
    Known-defect classes of the lowering (decidable predicates of Model/Lower.v):
      kf_or_not     Or lowered like And (outside `x==a || x==b`), Not lowered as the identity   (D3)
-     kf_aux_bounds a sub-expression value outside the placeholder bounds -1000..1000 of the
-                   auxiliary variables                                                           (D5)
      kf_nested_ne  a `!=` reaching the Binary arm becomes the no-op NotEquals propagator: the
                    DESCRIPTION still means x <> y (lower_denotes holds), the propagator does not
                    enforce it (C05 class neq_noop; nested_ne_refuted runs the engine)            (D3)
-   plus, after lowering: the validator rejects every modulo whose divisor is not a variable with a
-   0-free domain (mod_rejected_refuted). *)
+   plus, after lowering: the validator rejects every modulo whose divisor (variable or compound)
+   has bounds that contain 0 (mod_rejected_refuted; a constant divisor is accepted:
+   mod_const_accepted).
+   Repaired (D5): the auxiliary variables of compound sub-expressions have bounds computed from
+   their operands (Lower.ebounds; soundness: ebounds_sound, aux_dom_sound) instead of the
+   placeholder -1000..1000, so the former class kf_aux_bounds is gone.  In its place the theorems
+   about whole programs carry the in-range condition `doms_nonempty s = true` on the lowered store:
+   no variable has an empty domain; in particular no auxiliary variable's computed range has more
+   than max_sparse_set_domain_size values (Lower.aux_dom represents such a variable by the empty
+   domain; the validator answers InvalidDomain: aux_range_too_large).  It follows from
+   validate s ps = None (validate_none_nonempty) and from wf_store s (fluent_model_solutions).
+   Repaired: posting Var==Var on an emptied domain no longer panics (eq_on_empty_invalid). *)
 Require Import Selen.Model.Prelude Selen.Model.Dom Selen.Model.Views Selen.Model.PropDefs.
 Require Import Selen.Model.Props.Basic Selen.Model.Props.LinInt Selen.Model.Propagate Selen.Model.Search Selen.Model.EngineSpec.
 Require Import Selen.Model.Api Selen.Model.Lower.
@@ -37,28 +45,47 @@ Theorem to_linear_correct : forall c a, eval_cons (to_linear c) a = eval_cons c 
 Proof. exact LowerProofs.to_linear_correct. Qed.
 Print Assumptions to_linear_correct.
 
+(* ---- the computed bounds of auxiliary variables are sound: every value the expression takes on an
+   assignment inside the store lies in them, and (unless the range was too large to materialise) in
+   the auxiliary variable's domain ---- *)
+Theorem ebounds_sound : forall (s : store) a e x, inst a s -> escoped (length s) e ->
+  eval_expr e a = Some x -> fst (ebounds s e) <= x <= snd (ebounds s e).
+Proof. exact EBoundsSound.ebounds_sound. Qed.
+Print Assumptions ebounds_sound.
+
+Theorem aux_dom_sound : forall (s : store) a e x, inst a s -> escoped (length s) e ->
+  eval_expr e a = Some x -> aux_dom s e <> [] -> In x (aux_dom s e).
+Proof. exact EBoundsSound.aux_dom_sound. Qed.
+Print Assumptions aux_dom_sound.
+
 (* ---- one tree: materialize_constraint_kind adds exactly `impl_cons c` (induction on trees;
-   auxiliary variables, immediate Var==Val edits, the Or special case) ---- *)
+   auxiliary variables, immediate Var==Val edits, the Or special case).  `step` (LowerProofs.v):
+   soundness unconditionally; completeness for final stores without an empty domain ---- *)
 Theorem materialize_denotes : forall c st, cscoped (nvars st) c ->
   step st (materialize c st) (fun a => impl_cons c a = true).
 Proof. exact LowerProofs.materialize_ok. Qed.
 Print Assumptions materialize_denotes.
 
 (* ---- whole programs (declarations, then any sequence of m.new / lin_eq / lin_le / lin_ne): exact denotation of
-   the lowered model, known classes included ---- *)
+   the lowered model, known classes included; the last conjunct is the in-range condition ---- *)
 Theorem lower_denotes_exact : forall decls posts,
   forallb is_decl decls = true -> Forall (post_wf (length decls)) posts ->
   forall s ps, lower (build (decls ++ posts)) = LOk s ps ->
   forall a, (exists a', agree (length decls) a a' /\ inst a' s /\ allsat ps a') <->
-            (inst a (map decl_dom decls) /\ forall c, In c (post_forms posts) -> impl_cons c a = true).
+            (inst a (map decl_dom decls) /\ (forall c, In c (post_forms posts) -> impl_cons c a = true) /\
+             doms_nonempty s = true).
 Proof. exact LowerProofs.lower_denotes_exact. Qed.
 Print Assumptions lower_denotes_exact.
+
+Theorem validate_none_nonempty : forall s ps, validate s ps = None -> doms_nonempty s = true.
+Proof. exact LowerProofs.validate_none_nonempty. Qed.
+Print Assumptions validate_none_nonempty.
 
 (* ---- the property: outside the known classes the lowered model means the trees ---- *)
 Theorem lower_denotes : forall decls posts,
   forallb is_decl decls = true -> Forall (post_wf (length decls)) posts ->
-  (forall c, In (SNew c) posts -> kf_or_not (fold_cons c) = false /\ kf_aux_bounds c (map decl_dom decls) = false) ->
-  forall s ps, lower (build (decls ++ posts)) = LOk s ps ->
+  (forall c, In (SNew c) posts -> kf_or_not (fold_cons c) = false) ->
+  forall s ps, lower (build (decls ++ posts)) = LOk s ps -> doms_nonempty s = true ->
   forall a, (exists a', agree (length decls) a a' /\ inst a' s /\ allsat ps a') <->
             (inst a (map decl_dom decls) /\
              forall st c, In st posts -> stmt_cons st = Some c -> eval_cons c a = Some true).
@@ -68,11 +95,12 @@ Print Assumptions lower_denotes.
 Theorem spellings_agree : forall decls posts1 posts2 s1 ps1 s2 ps2,
   forallb is_decl decls = true ->
   Forall (post_wf (length decls)) posts1 -> Forall (post_wf (length decls)) posts2 ->
-  (forall c, In (SNew c) posts1 -> kf_or_not (fold_cons c) = false /\ kf_aux_bounds c (map decl_dom decls) = false) ->
-  (forall c, In (SNew c) posts2 -> kf_or_not (fold_cons c) = false /\ kf_aux_bounds c (map decl_dom decls) = false) ->
+  (forall c, In (SNew c) posts1 -> kf_or_not (fold_cons c) = false) ->
+  (forall c, In (SNew c) posts2 -> kf_or_not (fold_cons c) = false) ->
   (forall a, (forall st c, In st posts1 -> stmt_cons st = Some c -> eval_cons c a = Some true) <->
              (forall st c, In st posts2 -> stmt_cons st = Some c -> eval_cons c a = Some true)) ->
   lower (build (decls ++ posts1)) = LOk s1 ps1 -> lower (build (decls ++ posts2)) = LOk s2 ps2 ->
+  doms_nonempty s1 = true -> doms_nonempty s2 = true ->
   forall a, (exists a', agree (length decls) a a' /\ inst a' s1 /\ allsat ps1 a') <->
             (exists a', agree (length decls) a a' /\ inst a' s2 /\ allsat ps2 a').
 Proof. exact LowerProofs.spellings_agree. Qed.
@@ -91,7 +119,7 @@ Theorem fluent_model_solutions : forall (den : pdesc -> prop), (forall p a, sat 
   forall decls posts s ps pick sols best,
   forallb is_decl decls = true ->
   Forall (post_wf (length decls)) posts ->
-  (forall c, In (SNew c) posts -> kf_or_not (fold_cons c) = false /\ kf_aux_bounds c (map decl_dom decls) = false) ->
+  (forall c, In (SNew c) posts -> kf_or_not (fold_cons c) = false) ->
   lower (build (decls ++ posts)) = LOk s ps ->
   Forall good (map den ps) -> scoped (map den ps) (length s) -> wf_store s ->
   enumerate pick (map den ps) s = SOk sols best ->
@@ -117,13 +145,23 @@ Theorem not_refuted : exists decls c a s ps,
 Proof. exact LowerProofs.not_refuted. Qed.
 Print Assumptions not_refuted.
 
-Theorem aux_bounds_refuted : exists decls c a s ps,
-  kf_or_not (fold_cons c) = false /\ kf_aux_bounds c (map decl_dom decls) = true /\
-  lower (build (decls ++ [SNew c])) = LOk s ps /\
-  inst a (map decl_dom decls) /\ eval_cons c a = Some true /\
-  ~ (exists a', agree (length decls) a a' /\ inst a' s /\ allsat ps a').
-Proof. exact LowerProofs.aux_bounds_refuted. Qed.
-Print Assumptions aux_bounds_refuted.
+(* ---- repaired (D5): the product of x = y = 50 fits its auxiliary variable; the lowered model is
+   in range, valid, and has the solution ---- *)
+Theorem aux_bounds_repaired : exists s ps,
+  lower (build ([SInt 50 50; SInt 50 50] ++ [SNew (CBin (EMul x0 x1) OEq (EVal 2500))])) = LOk s ps /\
+  doms_nonempty s = true /\ validate s ps = None /\
+  exists a', agree 2 (fun _ => 50) a' /\ inst a' s /\ allsat ps a'.
+Proof. exact LowerProofs.aux_bounds_repaired. Qed.
+Print Assumptions aux_bounds_repaired.
+
+(* ---- the in-range condition is not vacuous: a computed range of more than
+   max_sparse_set_domain_size values is rejected by the validator ---- *)
+Theorem aux_range_too_large : exists s ps,
+  lower (build ([SInt 0 1000; SInt 0 1001] ++ [SNew (CBin (EMul x0 x1) OEq (EVal 2500))])) = LOk s ps /\
+  doms_nonempty s = false /\ validate s ps = Some EInvalidDomain /\
+  eval_cons (CBin (EMul x0 x1) OEq (EVal 2500)) (fun _ => 50) = Some true.
+Proof. exact LowerProofs.aux_range_too_large. Qed.
+Print Assumptions aux_range_too_large.
 
 Theorem nested_ne_refuted : exists decls c s ps sols best t,
   kf_or_not (fold_cons c) = false /\ kf_nested_ne c = true /\
@@ -138,22 +176,29 @@ Theorem mod_rejected_refuted : exists decls c a s ps,
 Proof. exact LowerProofs.mod_rejected_refuted. Qed.
 Print Assumptions mod_rejected_refuted.
 
-Theorem eq_on_empty_panics :
-  lower (build [SInt 0 1; SNew (CBin x0 OEq (EVal 5)); SNew (CBin x0 OEq x0)]) = LPanic.
-Proof. exact LowerProofs.eq_on_empty_panics. Qed.
-Print Assumptions eq_on_empty_panics.
+Theorem mod_const_accepted : exists s ps,
+  lower (build ([SInt 0 9] ++ [SNew (CBin (EMod x0 (EVal 3)) OEq (EVal 1))])) = LOk s ps /\ validate s ps = None.
+Proof. exact LowerProofs.mod_const_accepted. Qed.
+Print Assumptions mod_const_accepted.
+
+(* ---- repaired: Var==Var on an emptied domain is an invalid model, not a panic ---- *)
+Theorem eq_on_empty_invalid : exists s ps,
+  lower (build [SInt 0 1; SNew (CBin x0 OEq (EVal 5)); SNew (CBin x0 OEq x0)]) = LOk s ps /\
+  validate s ps = Some EInvalidDomain.
+Proof. exact LowerProofs.eq_on_empty_invalid. Qed.
+Print Assumptions eq_on_empty_invalid.
 
 (* ---- non-vacuity: a tree with repeated variables, constants on both sides, a product and a
    conjunction lies outside every class; its lowering is the dump the tie compares ---- *)
 Example c10_outside_classes :
   let c := CAnd (CBin (ESub (EMul x0 x1) (EMul (EVal 2) x0)) OGe (EAdd x1 (EVal (-3))))
                 (CBin (EAdd x0 x0) OLt (EAdd (EMul x1 (EVal 3)) (EVal 1))) in
-  kf_or_not (fold_cons c) = false /\ kf_nested_ne c = false /\ kf_aux_bounds c [drange (-3) 4; drange 0 5] = false.
+  kf_or_not (fold_cons c) = false /\ kf_nested_ne c = false.
 Proof. exact LowerProofs.outside_classes. Qed.
 
 Example c10_lowering_example :
   lower (build [SInt 0 3; SInt 0 3; SNew (CBin (EAdd x0 (EMul x1 (EVal 1))) OLe (EAdd (EVal 1) (EVal 2)));
                 SNew (CBin (EMul x0 x1) OEq (EVal 2))])
-  = LOk [drange 0 3; drange 0 3; aux_dom; [2]]
+  = LOk [drange 0 3; drange 0 3; drange 0 9; [2]]
         [PLinLe [1; 1] [0%nat; 1%nat] 3; PMul (VVar 0) (VVar 1) 2; PEq (VVar 2) (VVar 3)].
 Proof. vm_compute. reflexivity. Qed.
